@@ -2,24 +2,59 @@ import IastModel.Lemmas.ErVisit
 namespace IastModel
 open Node
 
-theorem srcOk_returnStmt {b : Node} (h : srcOk b = true) : srcOk (returnStmt b) = true := by
-  rw [srcOk_eq]
-  simp [returnStmt, srcNode, srcOkL, kids, h]
-
-/-- an expression-bodied arrow: the injected `{ return e }` is taken away again -/
+/-- an expression-bodied arrow: the injected `{ return e }` is taken away again — also after the block
+    visitor has worked on that injected block -/
 theorem arrow_VC (ps : List Node) (b : Node) (at' : String) (sp : Span) (hs : srcOk (.arrow ps b at' sp) = true)
     (lo hi : Nat) : VC lo hi (.arrow ps (.block [returnStmt b] Span.dummy) at' sp) (.arrow ps b at' sp) := by
   have hsk := srcOk_kids hs
   have hps : ∀ k ∈ ps, srcOk k = true := fun k hk => hsk k (by simp [kids, hk])
   have hb : srcOk b = true := hsk b (by simp [kids])
   refine ⟨?_, Or.inl rfl, by simp [Deep], rfl, by simp [Node.isIdent]⟩
-  intro σ
-  refine ⟨.arrow ps b at' sp, [], ?_, ⟨rfl, Or.inl rfl, by simp [noSp, unSpread]⟩, Win.nil _ _⟩
+  intro m hbr σ
+  obtain ⟨ps'', body'', rfl, hps'', hbody⟩ := hbr.arrow_inv
+  obtain ⟨Xs, Δ1, e1, s1, w1⟩ := eraseL_KL (VC.srcL lo hi ps hps) ps'' hps'' σ
   have hret : ∀ σ', erase σ' (returnStmt b) = (returnStmt b, σ') := fun σ' => erase_src _ (srcOk_returnStmt hb) σ'
   have hli : injectedLetIndex [returnStmt b] = none :=
     injectedLetIndex_src _ (by intro k hk; simp only [List.mem_singleton] at hk; subst hk; exact srcOk_returnStmt hb)
-  simp only [erase, eraseL_src ps hps σ, eraseL, hret, hli, dropAt]
-  simp [returnStmt, dummy_isDummy]
+  -- the erased body is `{ return e' }` without positions, with `e'` the source body up to positions
+  have hbd : ∃ e', erase (Δ1 ++ σ) body'' = (.block [.other "ReturnStatement" Span.dummy ["argument"] [e']] Span.dummy, Δ1 ++ σ) ∧
+      strip e' = strip b := by
+    rcases hbody.block_inv with rfl | ⟨ss', rfl, hg⟩
+    · refine ⟨b, ?_, rfl⟩
+      simp only [erase, eraseL, hret, hli, dropAt]
+      rfl
+    · obtain ⟨es, ee, hsim⟩ := hg (Δ1 ++ σ)
+      have hst := hsim.1
+      have hsp := hsim.2
+      cases es with
+      | nil => simp [stripL] at hst
+      | cons e0 rest =>
+        cases rest with
+        | cons _ _ => simp [stripL] at hst
+        | nil =>
+          simp only [stripL, List.cons.injEq, and_true] at hst
+          simp only [List.map_cons, List.map_nil, List.cons.injEq, and_true] at hsp
+          cases e0 with
+          | other k2 sp2 ns2 vs2 =>
+            simp only [returnStmt, strip, other.injEq] at hst
+            obtain ⟨rfl, -, rfl, hvs⟩ := hst
+            simp only [returnStmt, Node.span] at hsp
+            subst hsp
+            cases vs2 with
+            | nil => simp [stripL] at hvs
+            | cons v0 vrest =>
+              cases vrest with
+              | cons _ _ => simp [stripL] at hvs
+              | nil =>
+                simp only [stripL, List.cons.injEq, and_true] at hvs
+                exact ⟨v0, ee, hvs⟩
+          | _ => simp [returnStmt, strip] at hst
+  obtain ⟨e', ebd, he'⟩ := hbd
+  refine ⟨.arrow Xs e' at' sp, Δ1, ?_, ⟨by simp only [strip, Forall2_Sim_strip s1, he'], Or.inl rfl, by simp [noSp, unSpread]⟩, w1⟩
+  rw [erase_arrow, e1]
+  simp only
+  rw [ebd]
+  simp [arrowOut, dummy_isDummy]
 
 theorem KL_one {lo hi : Nat} {a' a : Node} (h : KL lo hi [a'] [a]) : VC lo hi a' a := by
   simp only [KL, Forall2] at h; exact h.1
@@ -167,6 +202,11 @@ theorem visit_VRes (cfg : Config) : ∀ (f : Nat) (root : Bool) (n : Node) (s : 
     | tpl es qs sp =>
       have hq : qs.all inertT = true := by
         have := srcOk_self hs; simpa [srcNode] using this
+      have hqb : noBlkL qs = true := by
+        unfold noBlkL
+        rw [List.all_eq_true]
+        intro q hq'
+        exact inertT_noBlk q (List.all_eq_true.mp hq q hq')
       have hses : ∀ k ∈ es, srcOk k = true := fun k hk => hsk k (by simp [kids, hk])
       have hsqs : ∀ k ∈ qs, srcOk k = true := fun k hk => hsk k (by simp [kids, hk])
       have hnes : ∀ k ∈ es, noOpt k = true := fun k hk => hnk k (by simp [kids, hk])
@@ -187,8 +227,8 @@ theorem visit_VRes (cfg : Config) : ∀ (f : Nat) (root : Bool) (n : Node) (s : 
         rw [hwk rr]
         have := (tk rr).2
         cases rr
-        · exact ⟨this.1, tpl_VC this.2⟩
-        · obtain ⟨hi, hk⟩ := this; exact ⟨hi, tpl_VC hk⟩
+        · exact ⟨this.1, tpl_VC this.2 hqb⟩
+        · obtain ⟨hi, hk⟩ := this; exact ⟨hi, tpl_VC hk hqb⟩
       simp only [visit]
       split
       · split
@@ -199,7 +239,7 @@ theorem visit_VRes (cfg : Config) : ∀ (f : Nat) (root : Bool) (n : Node) (s : 
           obtain ⟨c01, hkl⟩ := (tk false).2
           generalize (mapM' (visit cfg f false) (es ++ qs) s).2 = s1 at c01 hkl ⊢
           generalize (mapM' (visit cfg f false) es s).1 = es' at hkl ⊢
-          have h := tpl_arm cfg es es' qs sp s s1 c01 hkl
+          have h := tpl_arm cfg es es' qs sp s s1 c01 hkl hqb
           generalize toDdTpl cfg (.tpl es' qs sp) s1 = X at h ⊢
           obtain ⟨res, s2⟩ := X
           simp only [run_bind, run_pure]
